@@ -1203,6 +1203,176 @@ func leanFresh(in Sx) Sx {
 		Int(0), Int(0), Bool(true), Bool(false), Int(0), Bool(false)))
 }
 
+// ---------------------------------------------------------------- Shutdown races the lazy start
+//
+// `lanes` goroutines each create `rounds` fresh, never used executors; nsub first callers of Execute
+// and nshut callers of Shutdown leave a starting gun together.  Nothing but the race runs in a round.
+// A round in which somebody is not back after 2 s takes a goroutine dump: if every goroutine of the
+// round that has not returned is parked in a sync.Mutex / sync.RWMutex Lock inside the executor and no
+// goroutine of the round (callers, workers) is runnable, nobody can ever release those locks.
+// Afterwards (clean round): a final Shutdown, every accepted task has run exactly once, no worker is left.
+
+func leanStartShut(in Sx) Sx {
+	nw, capacity, nsub, nshut, rounds := in.At(1).AsInt(), in.At(2).AsInt(), in.At(3).AsInt(), in.At(4).AsInt(), in.At(6).AsInt()
+	const lanes = 4
+	type result struct {
+		st, runs           []int
+		stuck, incon, shut bool
+		shutStuck          bool
+	}
+	var found atomic.Value
+	var stopAll int32
+	var wg sync.WaitGroup
+	last := make([]result, lanes)
+	for l := 0; l < lanes; l++ {
+		wg.Add(1)
+		go func(l int) {
+			defer wg.Done()
+			for r := 0; r < rounds && atomic.LoadInt32(&stopAll) == 0; r++ {
+				e := sched.NewThreadPoolExecutor(nw, capacity).(*sched.ThreadPoolExecutor)
+				n := nsub + nshut
+				status := make([]int32, n)
+				gids := make([]int32, n)
+				runs := make([]int32, nsub)
+				var ready, goFlag, back int32
+				for g := 0; g < n; g++ {
+					go func(g int) {
+						atomic.StoreInt32(&gids[g], int32(Goid()))
+						var t sched.Runnable
+						if g < nsub {
+							t = sched.NewTask(func() error { atomic.AddInt32(&runs[g], 1); return nil })
+						}
+						atomic.AddInt32(&ready, 1)
+						for k := 0; atomic.LoadInt32(&goFlag) == 0; k++ {
+							if k > 256 {
+								runtime.Gosched()
+							}
+						}
+						st := int32(1)
+						if g < nsub {
+							var err error
+							p, val := Catch(func() { err = e.Execute(t) })
+							if p {
+								st = 3
+								if runtimePanic(val) {
+									st = 8
+								}
+							} else if err != nil {
+								st = 2
+							}
+						} else if p, _ := Catch(func() { e.Shutdown() }); p {
+							st = 8
+						}
+						atomic.StoreInt32(&status[g], st)
+						atomic.AddInt32(&back, 1)
+					}(g)
+				}
+				for atomic.LoadInt32(&ready) < int32(n) {
+					runtime.Gosched()
+				}
+				atomic.StoreInt32(&goFlag, 1)
+				var dl time.Time
+				for k := 0; atomic.LoadInt32(&back) < int32(n); k++ {
+					runtime.Gosched()
+					if k == 4096 {
+						dl = time.Now().Add(2 * time.Second)
+					}
+					if k > 4096 && k%1024 == 0 && time.Now().After(dl) {
+						break
+					}
+				}
+				res := result{st: make([]int, nsub), runs: make([]int, nsub)}
+				if atomic.LoadInt32(&back) < int32(n) {
+					time.Sleep(10 * time.Millisecond)
+					d := GDump()
+					mine := map[int]bool{}
+					for g := 0; g < n; g++ {
+						mine[int(atomic.LoadInt32(&gids[g]))] = true
+					}
+					locked, moving := 0, 0
+					for g := 0; g < n; g++ {
+						if atomic.LoadInt32(&status[g]) != 0 {
+							continue
+						}
+						gi := d[int(atomic.LoadInt32(&gids[g]))]
+						if gi != nil && (gi.State == "sync.Mutex.Lock" || strings.HasPrefix(gi.State, "sync.RWMutex")) &&
+							strings.Contains(gi.Text, "sched.(*ThreadPoolExecutor)") {
+							locked++
+						} else {
+							moving++
+						}
+					}
+					for _, gi := range d { // the workers of this executor
+						if mine[gi.Parent] && strings.Contains(gi.Text, fWorker) && !parkedState(gi.State) {
+							moving++
+						}
+					}
+					missing := n - int(atomic.LoadInt32(&back))
+					res.stuck = moving == 0 && locked == missing
+					res.incon = !res.stuck
+				}
+				bad := res.stuck
+				for g := 0; g < nsub; g++ {
+					res.st[g] = int(atomic.LoadInt32(&status[g]))
+					if res.st[g] == 0 {
+						if res.stuck {
+							res.st[g] = 4 // parked for good inside Execute / start()
+						} else {
+							res.st[g] = 5
+						}
+					}
+					if res.st[g] == 8 {
+						bad = true
+					}
+				}
+				for g := nsub; g < n; g++ {
+					if st := atomic.LoadInt32(&status[g]); st == 8 {
+						bad = true
+						res.shutStuck = false
+					} else if st == 0 && res.stuck {
+						res.shutStuck = true
+					}
+				}
+				if !res.stuck && !res.incon {
+					// the round is over; shut down for good (a Shutdown of the round may have found the
+					// executor not started yet) and look at what was accepted
+					back := make(chan struct{})
+					go func() { Catch(func() { e.Shutdown() }); close(back) }()
+					select {
+					case <-back:
+						res.shut = true
+					case <-time.After(5 * time.Second):
+						res.incon = true
+					}
+				}
+				for g := 0; g < nsub; g++ {
+					res.runs[g] = int(atomic.LoadInt32(&runs[g]))
+					if res.shut && (res.runs[g] > 1 || (res.st[g] == 1 && res.runs[g] != 1)) {
+						bad = true
+					}
+				}
+				last[l] = res
+				if bad || res.incon {
+					if found.Load() == nil || bad {
+						found.Store(res)
+					}
+					if bad {
+						atomic.StoreInt32(&stopAll, 1)
+					}
+					return
+				}
+			}
+		}(l)
+	}
+	wg.Wait()
+	res := last[0]
+	if v := found.Load(); v != nil {
+		res = v.(result)
+	}
+	return List(ints(res.st), ints(make([]int, nsub)), ints(res.runs), ints(res.runs), List(Int(0), Bool(res.shut), Bool(res.incon && !res.stuck),
+		Int(0), Int(0), Bool(true), Bool(res.shutStuck), Int(0), Bool(false)))
+}
+
 func run(in Sx) Sx {
 	if in.At(0).AsInt() == 0 {
 		return runScript(in)
@@ -1215,6 +1385,9 @@ func run(in Sx) Sx {
 	}
 	if in.Len() > 7 && in.At(7).AsInt() == 7 {
 		return runPanicShape(in)
+	}
+	if in.Len() > 7 && in.At(7).AsInt() == 8 {
+		return leanStartShut(in)
 	}
 	return runConc(in)
 }
@@ -1522,6 +1695,13 @@ func gen(a Args, out *Out) {
 		in := List(Int(1), Int(int64(r10.PickInt(1, 2, 4))), Int(8), Int(6), Int(1), Uint(r10.Next()>>1), Int(int64(rounds)), Int(6))
 		emit("leanfresh", in)
 		out.CountN("leanfresh:fresh executors (4 lanes)", 4*rounds)
+	}
+	r11 := rng.Fork()
+	for i := 0; i < nfresh/100; i++ {
+		rounds := 800
+		in := List(Int(1), Int(int64(r11.PickInt(1, 2, 4))), Int(8), Int(6), Int(int64(r11.Range(1, 2))), Uint(r11.Next()>>1), Int(int64(rounds)), Int(8))
+		emit("startshut", in)
+		out.CountN("startshut:fresh executors (4 lanes)", 4*rounds)
 	}
 	r9 := rng.Fork()
 	for i := 0; i < nfresh/8; i++ {
